@@ -93,7 +93,7 @@ func (w *vWorld) runSeqStep(nextId *int64, r *vReq, snapEvery bool) {
 			w.tr.Emit(map[string]interface{}{"e": "tock", "t": w.now})
 		}
 		w.tr.Emit(w.Snapshot())
-		for round := 0; round < 2000; round++ {
+		for round := 0; round < 40; round++ {
 			snap := w.Snapshot()
 			keys := snap["keys"].([]vKeySnap)
 			any := false
